@@ -35,7 +35,7 @@ namespace Gts
 Location of an empty `LocationList` (only when every member of a class of two or more is an
 empty `Joined{}`; the model does not represent `nil` locations, the protocol answer is
 `NILLOC`). -/
-inductive Outcome where
+inductive RepairOutcome where
   | ok (t : Table)
   | panic
   | nilLoc
@@ -160,7 +160,7 @@ def compact (gg : Table) (keep : List Nat) : Option Table :=
   (compactLoop gg 0 keep).map (·.take keep.length)
 
 /-- `Repair(ff)` when the map `index` is iterated in the order `cs` -/
-def repairOrd (ff : Table) (cs : List (List Nat)) : Outcome :=
+def repairOrd (ff : Table) (cs : List (List Nat)) : RepairOutcome :=
   match cs.foldlM (classStep ff) ⟨ff, [], false⟩ with
   | none => .panic
   | some st =>
@@ -169,6 +169,6 @@ def repairOrd (ff : Table) (cs : List (List Nat)) : Outcome :=
     | some gg => if st.nil then .nilLoc else .ok gg
 
 /-- `Repair(ff)` (feature.go:22-71) -/
-def repair (ff : Table) : Outcome := repairOrd ff (Table.groups ff)
+def repair (ff : Table) : RepairOutcome := repairOrd ff (Table.groups ff)
 
 end Gts
